@@ -169,6 +169,12 @@ def run(ctx, rep):
     okh = len(hs) == 1 and all(C.can_reach(S, p, hs[0][0]) and not C.can_reach(S, hs[0][0], p) for p in pushes)
     rep.check("C07.c", "tree-serialize", okh, where=S.loc(), what="Tree::serialize hashes the buffer after everything (incl. the trailing newline) was appended")
     # ---- C07.d -------------------------------------------------------------------------------------
+    unchanged_tree_rule(ctx, rep, "C07.d")
+
+
+def unchanged_tree_rule(ctx, rep, R):
+    """a tree is reported unchanged (nothing stored, early return) only if its freshly computed id equals the parent's id"""
+    prog = ctx.prog
     BT = prog.find1(r"^rustic_core::archiver::tree_archiver::TreeArchiver::<'a, BE, I>::backup_tree$")
     # early return (dirs_unmodified) is control-dependent on an id comparison
     unmod = [bi for bi, blk in enumerate(BT.blocks) for s in blk["s"] if s[0] == "=" and place_has_field(s[1], "dirs_unmodified")]
@@ -202,4 +208,4 @@ def run(ctx, rep):
     r_diff = pathsens.reachable_under(BT, fz0, eval_expr=ev0)
     r_same = pathsens.reachable_under(BT, fz1, eval_expr=ev1)
     okd = bool(unmod) and not any(bi in r_diff for bi in unmod) and any(bi in r_same for bi in unmod)
-    rep.check("C07.d", "unchanged-tree", bool(unmod) and okd, where=BT.loc(), what="a tree counts as unchanged (nothing stored) only if the id of the freshly serialized tree equals the parent's tree id")
+    rep.check(R, "unchanged-tree", bool(unmod) and okd, where=BT.loc(), what="a tree counts as unchanged (nothing stored) only if the id of the freshly serialized tree equals the parent's tree id")
